@@ -367,6 +367,7 @@ func runC18(args []string) error {
 		return lastDump
 	}
 	os.RemoveAll(filepath.Join(*out, "nodes"))
+	os.RemoveAll(filepath.Join(*out, "nodes_retry"))
 	res := make([]c18Observed, len(scs))
 	sem := make(chan struct{}, *par)
 	var wg sync.WaitGroup
@@ -382,6 +383,15 @@ func runC18(args []string) error {
 		}(i)
 	}
 	wg.Wait()
+	// A scenario that did not complete although no goroutine of it waits for a lock may just have been starved on a
+	// loaded machine: it is run again, alone, with a six times longer watchdog, and that second observation counts.
+	for i := range res {
+		if !res[i].Completed && res[i].SetupErr == "" && strings.HasPrefix(res[i].Blocked, "blocked:") {
+			pprof.Do(context.Background(), pprof.Labels("scen", fmt.Sprint(scs[i].Idx)), func(context.Context) {
+				res[i] = c18RunScenario(scs[i], filepath.Join(*out, "nodes_retry"), 6**wd, dump)
+			})
+		}
+	}
 	// confirm lingering lock waits: still in the profile one watchdog period after they were first seen
 	var latest time.Time
 	for i := range res {
